@@ -3,4 +3,5 @@ CONSTANTS
   Layouts <- LayoutsGap
   MaxLoops = 3
   FixEndIdx = TRUE
+  FixPadding = TRUE
 INVARIANTS Served StartOK CountOK FramesOK
